@@ -742,6 +742,9 @@ func (sqlite *SQLiteDB) GetIssuedEcash() (map[string]uint64, error) {
 		}
 		ecashIssued[keysetId] = amount
 	}
+	if err := rows.Err(); err != nil {
+		return nil, err
+	}
 
 	return ecashIssued, nil
 }
@@ -762,6 +765,9 @@ func (sqlite *SQLiteDB) GetRedeemedEcash() (map[string]uint64, error) {
 			return nil, err
 		}
 		ecashRedeemed[keysetId] = amount
+	}
+	if err := rows.Err(); err != nil {
+		return nil, err
 	}
 
 	return ecashRedeemed, nil
